@@ -18,7 +18,6 @@ import (
 	"pgregory.net/rapid"
 
 	"verifharness/internal/rp"
-	"verifharness/internal/stats"
 )
 
 const rule = "case = (document of <=4 statements in base order, artifact reference or blob policy name[, mutated place | verifier entry point]); selection cases are evaluated under every permutation of the statements; non-trivial = the document has >=2 statements and the reference/name is an exact hit or a near miss (prefix, extension, case variant, substring, tag form, look-alike) of a listed scope/name; distinct by (family, canonical document, reference/name)"
@@ -193,12 +192,12 @@ func shapes(s scope) []Ref {
 // space, look-alikes, normalisation forms, prefixes.
 var blobNames = []string{
 	"blob", "Blob", "BLOB", "blob ", " blob", "blob\t", "blo", "blob2", "bl ob", "b",
-	"bl\u03bfb",   // Greek omicron
-	"blo\uff42",   // full-width b
-	"blob\u200b",  // zero-width space
-	"blob\u00a0",  // no-break space
-	"caf\u00e9",   // NFC
-	"cafe\u0301",  // NFD
+	"bl\u03bfb",     // Greek omicron
+	"blo\uff42",     // full-width b
+	"blob\u200b",    // zero-width space
+	"blob\u00a0",    // no-break space
+	"caf\u00e9",     // NFC
+	"cafe\u0301",    // NFD
 	"blob\x00", "*", // NUL suffix; the OCI wildcard token (no meaning for blobs)
 }
 
@@ -651,5 +650,3 @@ func mustValidBlob(t *testing.T, doc *trustpolicy.BlobDocument, stmts []Stmt) {
 		t.Fatalf("harness: generated blob document is rejected by Validate: %v\n%+v", err, stmts)
 	}
 }
-
-var _ = stats.Tier
